@@ -561,6 +561,11 @@ class Sim:
                 if n['from'].get('signed') and fb < tb and (v[1] >> (fb - 1)) & 1:
                     return C(v[1] - (1 << fb), tb)
                 return C(v[1], tb)
+            fs, ts = bool(n['from'].get('signed')), bool(n['to'].get('signed'))
+            if ck == 'IntegralCast' and fb > 1 and (tb < fb or (tb == fb and fs != ts) or (fs and not ts)):
+                # a conversion that does not preserve the order of all values of the source type (narrowing, change of
+                # signedness): recorded so that rules about comparisons can ask in which type a value was compared
+                self.event({'kind': 'intconv', 'value': v, 'from': (fb, fs), 'to': (tb, ts), 'line': n.get('line'), 'implicit': not n.get('explicit')})
             if tb < fb:
                 return ('trunc', v, tb)
             if tb > fb:
